@@ -38,6 +38,9 @@ type TimeWheel struct {
 
 	updateNotify chan time.Time
 	stopNotify   chan struct{}
+	// closed by Close once the tick goroutine has exited, so that a
+	// concurrent Add does not wait for a receiver that is gone.
+	done chan struct{}
 
 	dispatch func(TimeSlot)
 }
@@ -47,6 +50,7 @@ func NewTimeWheel(dispatch func(TimeSlot)) *TimeWheel {
 		slots:        list.New(),
 		stopNotify:   make(chan struct{}),
 		updateNotify: make(chan time.Time),
+		done:         make(chan struct{}),
 		dispatch:     dispatch,
 	}
 	go tw.tick()
@@ -67,7 +71,10 @@ func (tw *TimeWheel) Add(target time.Time, value interface{}) {
 	tw.slots.PushBack(TimeSlot{Time: target, Value: value})
 	tw.slotsLock.Unlock()
 
-	tw.updateNotify <- target
+	select {
+	case tw.updateNotify <- target:
+	case <-tw.done:
+	}
 }
 
 func (tw *TimeWheel) Close() {
@@ -83,7 +90,7 @@ func (tw *TimeWheel) Close() {
 
 	tw.stopNotify = nil
 
-	close(tw.updateNotify)
+	close(tw.done)
 }
 
 func (tw *TimeWheel) tick() {
